@@ -43,6 +43,7 @@ type pScript struct {
 }
 
 type pPlugin struct {
+	Variant string     `json:"variant"` // thriftgo version the plugin binary's build info records ("" = the plain harness build, v0.0.0)
 	NoID   bool        `json:"noId"` // no id=<k> option: with empty Opts the plugin is started without any option
 	ID     string      `json:"id"`
 	Opts   [][2]string `json:"opts"` // key, value; value "\x00" = bare key
@@ -56,6 +57,8 @@ type scenario struct {
 	Gen       []string          `json:"gen"` // -g arguments
 	Recursive bool              `json:"recursive"`
 	LimitMs   int               `json:"limitMs"` // -1: flag not given
+	Compress  bool              `json:"compress"` // THRIFTGO_PLUGIN_COMPRESS_INCLUDE=1 in thriftgo's environment
+	OwnFile   bool              `json:"ownFile"`  // plugins emit equal file names: files are told apart by the marker FILE-OF-<id>
 	Plugins   []pPlugin         `json:"plugins"`
 }
 
@@ -113,6 +116,13 @@ var diamond = map[string]string{
 	"a.thrift":    "include \"sub/c.thrift\"\nnamespace go c11.a\nstruct A { 1: c.C c, 2: list<i32> l = [1, 2] }\n",
 	"b.thrift":    "include \"sub/c.thrift\"\nnamespace go c11.b\nstruct B { 1: optional c.C c, 2: c.E e = c.E.X }\n",
 	"sub/c.thrift": "namespace go c11.c\nenum E { X = 1, Y }\nstruct C { 1: string s (k = \"v\") }\nconst i32 K = 5\n",
+}
+
+// a chain without sharing: main -> a -> sub/c
+var treeProg = map[string]string{
+	"main.thrift":  "include \"a.thrift\"\nnamespace go c11.main\nstruct M { 1: a.A x }\n",
+	"a.thrift":     diamond["a.thrift"],
+	"sub/c.thrift": diamond["sub/c.thrift"],
 }
 
 // classification of a script, by the harness' own reading of what the plugin will do (the response bytes
@@ -254,7 +264,11 @@ func (h *harness) runScenario(sc *scenario) (*pObserved, string, error) {
 				scripts[fmt.Sprintf("#%d", l*len(sc.Plugins)+i)] = p.Script
 			}
 		}
-		arg := "c11plugin=" + h.plug
+		bin := h.plug
+		if p.Variant != "" {
+			bin = h.variants[p.Variant]
+		}
+		arg := "c11plugin=" + bin
 		if o := p.optString(); o != nil {
 			arg += ":" + *o
 		}
@@ -269,7 +283,7 @@ func (h *harness) runScenario(sc *scenario) (*pObserved, string, error) {
 	defer cancel()
 	cmd := exec.CommandContext(ctx, h.thriftgo, args...)
 	cmd.Dir = h.work
-	cmd.Env = append(os.Environ(), "C11_SCRIPT="+string(js), "C11_RECORD="+record, "C11_REPO="+h.repo, "THRIFTGO_PLUGIN_COMPRESS_INCLUDE=")
+	cmd.Env = append(os.Environ(), "C11_SCRIPT="+string(js), "C11_RECORD="+record, "C11_REPO="+h.repo, "THRIFTGO_PLUGIN_COMPRESS_INCLUDE="+map[bool]string{true: "1", false: ""}[sc.Compress])
 	var stdout, stderr bytes.Buffer
 	cmd.Stdout, cmd.Stderr = &stdout, &stderr
 	t0 := time.Now()
@@ -432,6 +446,15 @@ func (h *harness) checkScenario(sc *scenario) {
 					fail("a later plugin failed but a file was written", "no output", n)
 				}
 			}
+		} else if sc.OwnFile {
+			h.ownFileCheck(obs.outDir, p, fail)
+			want := cl.nwarn
+			if cl.stderr {
+				want++
+			}
+			if shown != want {
+				fail("plugin warnings not all shown", want, fmt.Sprintf("%d; stderr: %s", shown, tail(obs.stderr, 400)))
+			}
 		} else {
 			fed := 0
 			for n, want := range exp {
@@ -494,9 +517,16 @@ func (h *harness) checkScenario(sc *scenario) {
 			}
 			fail("request decoded by the plugin differs from the request the compiler built", "equal", d)
 		}
-		if rec.Trailer {
-			fail("data trailer sent to a plugin that does not report thriftgo >= v0.4.2", "no trailer", "trailer")
+		ver := sc.Plugins[i].Variant
+		if ver == "" {
+			ver = "v0.0.0"
 		}
+		gate := sc.Compress && versionAtLeast042(ver)
+		if rec.Trailer != gate {
+			fail(fmt.Sprintf("data trailer / include compression gate (switch %v, plugin built with thriftgo %s)", sc.Compress, ver),
+				map[bool]string{true: "trailer", false: "no trailer"}[gate], map[bool]string{true: "trailer", false: "no trailer"}[rec.Trailer])
+		}
+		cases = append(cases, mcase{fmt.Sprintf("gat %s %s", vl.B(sc.Compress), vl.Hex(ver)), vl.B(rec.Trailer)})
 	}
 	if nLang > 1 && !anyFault {
 		// every language runs every plugin (model: generateCalls)
@@ -535,6 +565,41 @@ func (h *harness) checkScenario(sc *scenario) {
 		cases = append(cases, mcase{op, "ok " + strings.Join(got, " | ")})
 	}
 	h.out.Stats["process:plugin-executions"] += len(obs.records)
+}
+
+// versionAtLeast042: the documented gate, on a vA.B.C string
+func versionAtLeast042(v string) bool {
+	parts := strings.Split(strings.SplitN(strings.TrimPrefix(v, "v"), "-", 2)[0], ".")
+	return len(parts) == 3 && refVersionGE(parts[0], parts[1], parts[2])
+}
+
+// ownFileCheck: plugins emitted equal names; every patch text a plugin sent must be in the file that holds
+// its insertion point, i.e. the one carrying the plugin's marker (whatever name the file manager gave it)
+func (h *harness) ownFileCheck(outDir string, p *pPlugin, fail func(string, interface{}, interface{})) {
+	marker := "FILE-OF-" + p.ID
+	var content string
+	found := 0
+	filepath.Walk(outDir, func(path string, info os.FileInfo, err error) error {
+		if err == nil && !info.IsDir() {
+			if b, e := os.ReadFile(path); e == nil && strings.Contains(string(b), marker) {
+				found++
+				content = string(b)
+			}
+		}
+		return nil
+	})
+	if found != 1 {
+		fail("file of plugin "+p.ID+" not found exactly once in the output", 1, found)
+		return
+	}
+	for _, f := range p.Script.Files {
+		if f.Name == nil && !strings.Contains(content, f.Content) {
+			fail("patch sent by plugin "+p.ID+" is missing from the file that holds its insertion point", f.Content, content)
+		}
+	}
+	if strings.Contains(content, "@@thriftgo_insertion_point(") {
+		fail("insertion point left in the file of plugin "+p.ID, "removed", content)
+	}
 }
 
 // laterFault: some plugin after i faults (then thriftgo fails as a whole and persists nothing).
@@ -654,6 +719,52 @@ func (h *harness) catalogue() []*scenario {
 		s.Plugins = []pPlugin{{ID: "p0", NoID: true, Script: pScript{}},
 			{ID: "p1", Opts: [][2]string{{"x", "1"}}, Script: pScript{Files: okFiles("p1")}}}
 	})
+	// two plugins emit the same file name with different content, each with an insertion point and nameless patches
+	add("same-file-name-different-content-nameless-patches", func(s *scenario) {
+		s.OwnFile = true
+		mk := func(id string) pScript {
+			return pScript{Files: []pFile{
+				{Name: sp("shared/c11_same.txt"), Content: "FILE-OF-" + id + "\n// " + fmt.Sprintf(marker, "p1") + "\nend of " + id + "\n"},
+				{Point: sp("p1"), Content: "PATCH-" + id + "-1\n"},
+				{Point: sp("p1"), Content: "PATCH-" + id + "-2\n"},
+			}}
+		}
+		s.Plugins = []pPlugin{{ID: "p0", Script: mk("p0")}, {ID: "p1", Script: mk("p1")}, {ID: "p2", Script: mk("p2")}}
+	})
+	// version gate matrix: switch off/on x plugin built against {v0.0.0, v0.4.1, v0.4.2, v0.4.3} x include graph tree/diamond
+	vers := []string{""}
+	for _, v := range []string{"v0.4.1", "v0.4.2", "v0.4.3"} {
+		if h.variants[v] != "" {
+			vers = append(vers, v)
+		}
+	}
+	for _, env := range []bool{false, true} {
+		for _, v := range vers {
+			for _, graph := range []string{"tree", "diamond"} {
+				env, v, graph := env, v, graph
+				name := v
+				if name == "" {
+					name = "v0.0.0"
+				}
+				add(fmt.Sprintf("gate-switch-%v-%s-%s", env, name, graph), func(s *scenario) {
+					s.Compress = env
+					if graph == "tree" {
+						s.Files = treeProg
+					}
+					s.Plugins = []pPlugin{{ID: "p0", Variant: v, Script: pScript{Files: okFiles("p0")[2:3]}}}
+				})
+			}
+		}
+	}
+	if h.variants["v0.4.3"] != "" && h.variants["v0.4.1"] != "" {
+		// compressed for the first plugin, reverted, plain for the second, compressed again for the third
+		add("gate-mixed-plugins-revert", func(s *scenario) {
+			s.Compress = true
+			s.Recursive = true
+			s.Plugins = []pPlugin{{ID: "p0", Variant: "v0.4.3", Script: pScript{}}, {ID: "p1", Variant: "v0.4.1", Script: pScript{}},
+				{ID: "p2", Variant: "v0.4.3", Opts: [][2]string{{"k", "v"}}, Script: pScript{Files: okFiles("p2")}}}
+		})
+	}
 	add("first-plugin-fails-second-not-run", func(s *scenario) {
 		s.Plugins = []pPlugin{{ID: "p0", Script: pScript{Exit: 1}}, {ID: "p1", Script: pScript{Files: okFiles("p1")}}}
 	})
@@ -785,15 +896,12 @@ func (h *harness) processRegressions() {
 func (h *harness) suiteProcess(n int) {
 	cat := h.catalogue()
 	for i, s := range cat {
-		if i >= n {
-			break
-		}
 		if i < nRegression {
 			continue // already run by processRegressions
 		}
 		h.checkScenario(s)
 	}
-	for i := len(cat); i < n; i++ {
+	for i := len(cat); i < len(cat)+n; i++ {
 		h.checkScenario(h.randomScenario(i))
 	}
 	labels := []string{}
